@@ -424,7 +424,7 @@ pub fn run_with<F: FnMut(usize, &[bool]) -> Option<String>>(mut next_line: F) ->
             trace.push(format!("> {}", line.trim()));
             match (ws[0], &shared) {
                 ("spawn", None) => {
-                    let n: usize = ws.get(1).and_then(|x| x.parse().ok()).unwrap_or(2).clamp(1, 8);
+                    let n: usize = ws.get(1).and_then(|x| x.parse().ok()).unwrap_or(2).clamp(1, 16);
                     let sh = Arc::new(Shared {
                         log: Mutex::new(vec![]),
                         next_mid: AtomicU64::new(1),
